@@ -75,7 +75,7 @@ def _kind(q, names_set, got, exp, dn=True):
             return 'picks-textual-suffix'
         return 'picks-one-of-ambiguous'
     if got in (N.AMBIGUOUS, N.NOTFOUND):
-        return 'refuses-resolvable'
+        return 'refuses-own-full-name' if q == exp else 'refuses-resolvable'
     return 'wrong-target'
 
 
